@@ -31,6 +31,7 @@ RULES = {
     "A4": R.rule_A4,
     "A5": R.rule_A5,
     "A6": TP.rule_A6,
+    "T9p": TP.rule_T9p,
     "A3": L.rule_A3,
     "D1": U.rule_D1,
     "D2": U.rule_D2,
@@ -51,12 +52,13 @@ RULES = {
 
 PROPS = {
     "C01": {
-        "rules": ["T1", "T2", "A5", "T12"],
+        "rules": ["T1", "T2", "A5", "T9p", "T12"],
         "claim": "Decides the wiring clauses of C01, not the computed values: every operator spelling is wired, through the "
         "five tables lexer -> get_definition -> handle_parse_node -> execute_current_instruction -> perform_*, to the "
         "public runtime function and GarnishNumber method the language table gives it; the three dispatch matches "
         "have no catch-all arm (a missing handler is a compile error); operands reach the host/operation in source order "
-        "(left = popped second, A5); and every child build node inherits its parent's containing-expression entry, only a "
+        "(A5: at the host boundary left = popped second; T9p: the builder emits every binary construct left operand first, the two "
+        "reviewed right-first constructs Pair and ApplyTo having a runtime reader that takes its first pop as the left value); and every child build node inherits its parent's containing-expression entry, only a "
         "nested expression body and the tree root starting a new one (T12: a reapply re-enters the expression it is written in).",
     },
     "C02": {
